@@ -63,6 +63,8 @@ type Env struct {
 	groupWrites map[Loc][]map[Loc]bool
 	timeTexts []*Term
 	expectBlock bool
+	driftMax  int64
+	nowCalls  int
 	realFB    bool // execute the real filebuffer code (E-pages) instead of the E-flat intrinsics
 	served map[string]string
 	nrand  int
@@ -198,6 +200,10 @@ func (m *Machine) vrtEnvCall(name string, a []Value) (Value, bool) {
 		return c.Bool(ok), true
 	case "LogLen":
 		return c.IntI(SI64, int64(len(e.log))), true
+	case "ClockDrift":
+		v, _ := a[0].(*Term).ConstInt64()
+		e.driftMax = v
+		return nil, true
 	case "ExpectBlock":
 		e.expectBlock = true
 		return nil, true
@@ -624,6 +630,12 @@ func (m *Machine) envIntrinsic(name string, fn *ssa.Function, args []Value) (Val
 				return m.newErr("flush: file already closed", nil), true
 			}
 			m.fbLoad(fb)
+			if fb.size > len(fb.fo.f.data) {
+				// page images beyond the end of the file are written out too: the file grows
+				nd := make([]*Term, fb.size)
+				copy(nd, fb.fo.f.data)
+				fb.fo.f.data = nd
+			}
 			d := fb.fo.f.data
 			for i := 0; i < fb.size && i < len(d); i++ {
 				d[i] = fb.m[i]
